@@ -26,20 +26,27 @@ def _euler(n):
         ubs = [v.real("ub_" + s, lo=0, hi=1000) for s in names]
         fs = [v.real("f_" + s, lo=-1e3, hi=1e3) for s in names]
         v.assume(SP.conj([y <= ub for y, ub in zip(ys, ubs)]))
-        v.contract(ReactionSystem.upper_conc_bounds, "upper_conc_bounds", None, lambda v_, self, init_concs, **kw: list(ubs))
+        seen = []
+        v.contract(ReactionSystem.upper_conc_bounds, "upper_conc_bounds", None, lambda v_, self, init_concs, **kw: (seen.append(("bounds_of", init_concs)), list(ubs))[1])
 
         class Sys(FakeSymbolicSys):
             def f_cb(self, x, y, p):
+                seen.append(("rhs_at", x, y, tuple(p)))
                 return list(fs)
         odesys, extra = v.call(get_odesys, rsys, SymbolicSys=Sys)
         cb = extra["max_euler_step_cb"]
         v.prove("callback_offered_when_compositions_known", cb is not None)
-        h = v.call(cb, 0.0, ys)
+        t0 = v.real("t0", lo=0, hi=10)
+        h = v.call(cb, t0, ys)
+        v.prove("bounds_and_rhs_are_those_of_the_given_state", len(seen) == 2 and seen[0][0] == "bounds_of" and seen[0][1] is ys and seen[1][0] == "rhs_at" and seen[1][1] is t0 and seen[1][2] is ys
+                and seen[1][3] == ())
         v.prove_nl("step_is_non_negative", h >= 0)
         v.prove_nl("step_at_most_one", h <= 1)
         for y, ub, f, s in zip(ys, ubs, fs, names):
             v.prove_nl("stays_non_negative_" + s, y + h * f >= 0)
             v.prove_nl("stays_below_bound_" + s, y + h * f <= ub)
+        # not needlessly small: either the cap 1 is returned or some concentration reaches its limit exactly (0 when falling, the bound when rising)
+        v.prove_nl("step_is_as_large_as_safety_allows", SP.disj([h == 1] + [SP.conj([f < 0, y + h * f == 0]) for y, f in zip(ys, fs)] + [SP.conj([f > 0, y + h * f == ub]) for y, ub, f in zip(ys, ubs, fs)]))
     return _
 
 
